@@ -28,7 +28,10 @@ TCG == /\ Ev("CG") /\ CGet /\ E.j = ngot'
        /\ E.name_ok
 THRet == Ev("HRET") /\ HReturn
 TCD == Ev("CD") /\ CDone
-TraceNext == TReset \/ TCS \/ TFR \/ THS \/ THR \/ TCG \/ THRet \/ TCD
+(* cross family: five other clients made large calls of their own on the same service meanwhile, one of them reading its  *)
+(* reply only at the end; each must have received exactly its own bytes - and nothing of this may show in the steps above *)
+TXL == Ev("XL") /\ E.ok /\ UNCHANGED vars
+TraceNext == TReset \/ TCS \/ TFR \/ THS \/ THR \/ TCG \/ THRet \/ TCD \/ TXL
 TraceSpec == TraceInit /\ [][TraceNext]_tvars
 ASSUME TLCSet(1, 0)
 HighWater == /\ IF l > TLCGet(1) THEN TLCSet(1, l) ELSE TRUE
